@@ -21,7 +21,7 @@ var UNum = []string{"1", "3", "10", "9", "3.5", "-1", "007"}
 var UBiz = []string{"a", "b", "Hotel", "hotel", ""}
 var UTagKeys = []string{"k", "n", "s"}
 
-var PeopleIDs = []string{"p1", "p2", "p3", "p4", "p5", "p6", "p7", "p8"}
+var PeopleIDs = []string{"p1", "p2", "p3", "p4", "p5", "p6", "p7", "p8", "p9", "pA", "pB", "pa"}
 var PlaceIDs = []string{"q1", "q2", "q3", "q4"}
 
 const DanglingID = "zz"
@@ -131,6 +131,7 @@ func GenDataset(t *rapid.T, maxPeople, maxPlaces int) *Dataset {
 		p.Roles = genSubset(t, l+"_roles", URole, 4)
 		p.Nums = genSubset(t, l+"_nums", UNum, 4)
 		p.Places = genSubset(t, l+"_places", placeRefs, 3)
+		p.Peers = genSubset(t, l+"_peers", peopleRefs, 3)
 		switch rapid.IntRange(0, 5).Draw(t, l+"_tagshape") {
 		case 0:
 			p.NoTags = true
@@ -159,6 +160,8 @@ type GenOpts struct {
 	NoMaps      bool
 	NoDotted    bool
 	NoSubQuery  bool
+	SelfLinks   bool            // sub-queries only over link sets that point back at the same store (C20)
+	Boost       map[string]int  // multiplies the weight of an atom kind (scalar null boolsym const setfn count isempty subcount subempty)
 	Exclude     map[string]bool // atom classes excluded by construction (known findings); counted by the caller
 	Classes     *[]string
 	ExcludedHit *int
@@ -179,8 +182,8 @@ var peopleScalars = []symSpec{{"id", "s"}, {"sa", "s"}, {"sb", "s"}, {"ia", "i"}
 var peopleDottedScalars = []symSpec{{"boss.sa", "s"}, {"boss.ia", "i"}, {"boss.fa", "f"}, {"boss.ba", "b"}, {"boss.ta", "t"}, {"home.name", "s"}, {"home.n", "i"}, {"boss.boss.sa", "s"}, {"boss.home.name", "s"}, {"boss.boss", "s"}}
 var peopleMapScalars = []symSpec{{"tags.k", "any"}, {"tags.n", "any"}, {"tags.s", "any"}, {"tags.missing", "any"}}
 var peopleDottedMaps = []symSpec{{"boss.tags.k", "any"}}
-var peopleSetsDirect = []symSpec{{"roles", "s"}, {"nums", "s"}, {"places", "s"}}
-var peopleSetsDotted = []symSpec{{"places.name", "s"}, {"places.n", "i"}, {"places.businesses", "s"}, {"boss.roles", "s"}, {"boss.places", "s"}, {"boss.places.name", "s"}, {"places.people", "s"}, {"places.people.sa", "s"}, {"places.people.ia", "i"}}
+var peopleSetsDirect = []symSpec{{"roles", "s"}, {"nums", "s"}, {"places", "s"}, {"peers", "s"}}
+var peopleSetsDotted = []symSpec{{"places.name", "s"}, {"places.n", "i"}, {"places.businesses", "s"}, {"boss.roles", "s"}, {"boss.places", "s"}, {"boss.places.name", "s"}, {"places.people", "s"}, {"places.people.sa", "s"}, {"places.people.ia", "i"}, {"peers.sa", "s"}, {"peers.roles", "s"}}
 var placesScalars = []symSpec{{"id", "s"}, {"name", "s"}, {"n", "i"}}
 var placesSetsDirect = []symSpec{{"businesses", "s"}, {"people", "s"}}
 var placesSetsDotted = []symSpec{{"people.sa", "s"}, {"people.roles", "s"}, {"people.ia", "i"}}
@@ -430,7 +433,7 @@ func linkSetsFor(kind string) []symSpec {
 	if kind == "places" {
 		return []symSpec{{"people", "people"}}
 	}
-	return []symSpec{{"places", "places"}}
+	return []symSpec{{"places", "places"}, {"peers", "people"}}
 }
 
 // GenAtom draws one atom of the filter language for rows of the given kind.
@@ -447,8 +450,11 @@ func GenAtom(t *rapid.T, l string, kind string, depth int, o *GenOpts) *Expr {
 		}
 	}
 	total := 0
-	for _, c := range choices {
-		total += c.w
+	for i := range choices {
+		if m, ok := o.Boost[choices[i].name]; ok {
+			choices[i].w *= m
+		}
+		total += choices[i].w
 	}
 	x := rapid.IntRange(0, total-1).Draw(t, l+"_atomkind")
 	var which string
@@ -505,8 +511,12 @@ func GenAtom(t *rapid.T, l string, kind string, depth int, o *GenOpts) *Expr {
 		o.label("isEmpty")
 		return &Expr{Op: "isempty", L: &LHS{Sym: s.name}}
 	case "subcount", "subempty":
-		ls := pick(t, l+"_link", linkSetsFor(kind))
-		sub := GenExpr(t, l+"_sub", ls.decl, depth-1, &GenOpts{NoSubQuery: true, NoMaps: o.NoMaps, NoDotted: o.NoDotted, Exclude: o.Exclude, Classes: o.Classes, ExcludedHit: o.ExcludedHit})
+		links := linkSetsFor(kind)
+		if o.SelfLinks {
+			links = []symSpec{{"peers", "people"}}
+		}
+		ls := pick(t, l+"_link", links)
+		sub := GenExpr(t, l+"_sub", ls.decl, depth-1, &GenOpts{NoSubQuery: true, NoMaps: o.NoMaps, NoDotted: o.NoDotted, Exclude: o.Exclude, Classes: o.Classes, ExcludedHit: o.ExcludedHit, Boost: o.Boost})
 		if which == "subcount" {
 			if o.Exclude["count-subquery"] {
 				if o.ExcludedHit != nil {
